@@ -32,6 +32,10 @@ Fixpoint acked (bs : list blob) (cs : list ocall) : list N :=
   | _, _ => []
   end.
 
+(* first non-empty kind *)
+Definition orelse (a b : string) : string := if String.eqb a "" then b else a.
+Infix "<|>" := orelse (at level 61, right associativity).
+
 Definition p_action (a : action) (o : oaction) : string :=
   (* ac_only_complete *)
   match oa_ac o with
@@ -42,22 +46,22 @@ Definition p_action (a : action) (o : oaction) : string :=
     else if negb (forallb (fun d => memN d (oa_cas o)) rs) then "C09:ac-references-missing-blob"
     else ""
   | None => ""
-  end ++
+  end <|>
   (* failure_pruned *)
   (if upload_failed o then
      if r_code (oa_resp o) =? 0 then "C09:upload-failure-status-ok"
      else if match oa_ac o with Some _ => true | None => false end then "C09:upload-failure-cached"
      else if negb (advertises_nothing (oa_resp o)) then "C09:upload-failure-not-pruned"
      else ""
-   else "") ++
+   else "") <|>
   (if final_failed o then
      if r_code (oa_resp o) =? 0 then "C09:final-write-failure-status-ok"
      else if match oa_ac o with Some _ => true | None => false end then "C09:final-write-failure-cached"
      else ""
-   else "") ++
+   else "") <|>
   (* ack_stored_or_reported *)
   (if (oc_ret (oa_flush o) =? 0) && negb (forallb (fun d => memN d (oa_cas o)) (acked (a_blobs a) (oa_puts o)))
-   then "C09:acked-blob-lost" else "") ++
+   then "C09:acked-blob-lost" else "") <|>
   (* buffers_consumed_once *)
   (if negb (Nat.eqb (length (oa_closes o)) (length (a_blobs a))) then "C09:buffer-count"
    else if existsb (fun n => Nat.ltb 1 n) (oa_closes o) then "C09:buffer-consumed-twice"
